@@ -392,9 +392,9 @@ def promoted_value(f, idx):
     return vals.get(0)
 
 
-def indexed_consts(f, op_or_local):
+def indexed_consts(f, op_or_local, stop=None):
     """constant indices k of `x[k]` reads (place projections and Index::index calls) in the backward slice of an operand"""
-    sl, info = f.slice_locals(op_or_local, through_calls=True)
+    sl, info = f.slice_locals(op_or_local, through_calls=True, stop=stop)
     ks = set()
     for l in sl:
         for d in f.defs.get(l, []):
@@ -419,38 +419,41 @@ def indexed_consts(f, op_or_local):
 def c06e(chk):
     """axis-role consistency and definitional wiring that is visible in the shape of the code"""
     prog = chk.prog
+    import iters as IT
     f = chk.fn(STAT + "Fst::from_sfs_unchecked")
-    cl = prog.fn(STAT + "Fst::from_sfs_unchecked::{closure#0}")
-    if f is not None and cl is not None:
-        chk.fns_analysed.add(cl.path)
-        caps = an.closure_captures(f, cl.path)
+    if f is not None:
+        its = IT.iterations(prog, f)
         n = 0
-        for b, i, p, rv, s in cl.assigns():
-            if rv["k"] != "binop" or rv["op"] != "Div":
-                continue
-            # divisor: a captured value?
-            sl, info = cl.slice_locals(rv["r"], through_calls=False)
-            up = None
-            for l in sl:
-                for d in cl.defs.get(l, []):
-                    if d[0] == "assign" and d[3]["k"] == "use":
-                        q = op_place(d[3]["op"])
-                        if q and q[0] == 1:
-                            fs_ = [e for e in q[1] if e[0] == "field"]
-                            if fs_:
-                                up = fs_[0][1]
-            if up is None or caps is None or up >= len(caps) or caps[up] is None:
-                continue
-            n += 1
-            k_den = indexed_consts(f, caps[up][0])
-            k_num = indexed_consts(cl, rv["l"])
-            chk.ob("C06.e", "Fst/correction-term#%d/frequency-and-sample-size-of-the-same-axis" % n, len(k_den) == 1 and k_num == k_den, cl.loc(),
-                   "f(1-f)/(n-1) must combine the allele frequency and the sample size of the same population: numerator reads fs%s, divisor derives from shape%s" % (sorted(k_num), sorted(k_den)))
-        chk.ob("C06.e", "Fst/two-correction-terms", n == 2, cl.loc(), "expected the two per-population sample-size corrections (found %d)" % n, nontrivial=False)
+        dens = []
+        where = f.loc()
+        for g in [f] + prog.closures_of(f.path):
+            chk.fns_analysed.add(g.path)
+            for b, i, p, rv, s in g.assigns():
+                if rv["k"] != "binop" or rv["op"] != "Div":
+                    continue
+                # the divisor: a value of from_sfs_unchecked computed outside the per-class body (captured by a closure / read in a loop)
+                inside = [it for it in its if it.body is g and b in it.blocks]
+                it = min(inside, key=lambda x: len(x.blocks)) if inside else None
+                if it is None:
+                    continue
+                root = it.outer_root(rv["r"])
+                if root is None:
+                    continue
+                # .. defined before the iteration
+                dd = f.single_def(root)
+                if dd is None or (it.kind == "loop" and dd[1] in it.loop_blocks):
+                    continue
+                n += 1
+                where = g.loc(b)
+                k_den = indexed_consts(f, root)
+                stop = (lambda l, it=it: l == it.elem_local) if it.kind == "loop" else None
+                k_num = indexed_consts(g, rv["l"], stop=stop)
+                dens.append(tuple(sorted(k_den)))
+                chk.ob("C06.e", "Fst/correction-term#%d/frequency-and-sample-size-of-the-same-axis" % n, len(k_den) == 1 and k_num == k_den, g.loc(b),
+                       "f(1-f)/(n-1) must combine the allele frequency and the sample size of the same population: numerator reads fs%s, divisor derives from shape%s" % (sorted(k_num), sorted(k_den)))
+        chk.ob("C06.e", "Fst/two-correction-terms", n == 2, where, "expected the two per-population sample-size corrections (found %d)" % n, nontrivial=False)
         # the two sample sizes come from different axes
-        if caps:
-            ks = [tuple(sorted(indexed_consts(f, c[0]))) for c in caps if c is not None]
-            chk.ob("C06.e", "Fst/sample-sizes-from-axes-0-and-1", sorted(ks) == [(0,), (1,)], f.loc(), "captured n_i - 1, n_j - 1 derive from shape[0] and shape[1] (found %s)" % ks)
+        chk.ob("C06.e", "Fst/sample-sizes-from-axes-0-and-1", sorted(dens) == [(0,), (1,)], f.loc(), "n_i - 1, n_j - 1 derive from shape[0] and shape[1] (found %s)" % dens)
     h = chk.fn("sfs_core::utils::harmonic")
     if h is not None:
         cs = [(b, t) for b, t in h.calls()]
@@ -459,14 +462,19 @@ def c06e(chk):
     ph = chk.fn("sfs_core::utils::p_harmonic")
     if ph is not None:
         rng = [rv for b, i, p, rv, s in ph.assigns() if rv["k"] == "aggregate" and rv.get("adt") == "core::ops::range::Range"]
-        ok = len(rng) == 1 and const_val(rng[0]["ops"][0]) == 1 and op_local(rng[0]["ops"][1]) is not None and ph.copy_root(op_local(rng[0]["ops"][1])) == 1 and not list(ph.switches())
+        import iters as IT
+        pits = IT.iterations(prog, ph)
+        loops = [it for it in pits if it.kind == "loop" and it.parent is ph]
+        stray = [b for b, t in ph.switches() if not any(b == it.switch_bb for it in loops)]
+        ok = len(rng) == 1 and const_val(rng[0]["ops"][0]) == 1 and op_local(rng[0]["ops"][1]) is not None and ph.copy_root(op_local(rng[0]["ops"][1])) == 1 and not stray and all(it.runs_for_every_element() for it in pits)
         chk.ob("C06.e", "p_harmonic/sum-over-1..n", ok, ph.loc(), "a_n = sum_{i=1}^{n-1} 1/i^p: the half-open range 1..n on every path")
-        c = prog.fn("sfs_core::utils::p_harmonic::{closure#0}")
         okc = False
-        if c is not None:
-            divs = [rv for b, i, p, rv, s in c.assigns() if rv["k"] == "binop" and rv["op"] == "Div"]
-            pows = [t for b, t in c.calls() if (t["callee"].get("path") or "") == "core::num::<impl u64>::pow"]
-            okc = len(divs) == 1 and isinstance(const_val(divs[0]["l"]), dict) and const_val(divs[0]["l"]).get("f") == "1.0" and len(pows) == 1
+        divs = []
+        pows = []
+        for c in [ph] + prog.closures_of(ph.path):
+            divs += [rv for b, i, p, rv, s in c.assigns() if rv["k"] == "binop" and rv["op"] == "Div"]
+            pows += [t for b, t in c.calls() if (t["callee"].get("path") or "") == "core::num::<impl u64>::pow"]
+        okc = len(divs) == 1 and isinstance(const_val(divs[0]["l"]), dict) and const_val(divs[0]["l"]).get("f") == "1.0" and len(pows) == 1
         chk.ob("C06.e", "p_harmonic/term=1/i^p", okc, ph.loc(), "each term is 1.0 / (i.pow(p) as f64)")
 
 
